@@ -2,16 +2,24 @@
 Theorems: coq/Properties/C18.v over coq/Expr/TypeModel.v (parseDataType, parseCast, parseCastOperator,
 FormatDataType and the cast printer) and the independent spec coq/Expr/TypeSpec.v (canon_ty, shown).
 Tie: three-way correspondence code / extracted model / spec on random type trees to depth 5 covering every
-parent/child constructor pair, six separator styles and token-level mutants (checks/gen_type_cases.py)."""
+parent/child constructor pair, six separator styles and token-level mutants; string arguments as BYTE strings (values that
+are not valid UTF-8, spelled with \\xNN) and of every length (0..70, around 128 / 256 / 4096) with a quote, a backslash or a
+multi-byte character at every distance from either end; very wide (> 1500 arguments) and deep types; a SCRIPT pass that
+parses all cases in ONE parser.Parse call and compares per statement with the per-case results (checks/gen_type_cases.py).
+The theorems are stated over the lexer's tokens of T: the lexer correspondence (lexcommon.lexer_premise) ties that premise
+to the current lexer.go."""
 import os
 import re
+import threading
 import verif
 
 TRUSTED = [
     "Coq 8.16.1 kernel and vm_compute; Print Assumptions of every theorem: closed under the global context",
     "hand-written model coq/Expr/TypeModel.v (fragment: the constructor set of the property; everything else explicit OutOfFragment) tied to the code by the correspondence run; the isDataTypeName table is embedded by hand in Expr/TypeBase.v (drift shows up as model-vs-code disagreement)",
     "the canonical escaping (esc applied three times inside the type literal) is read off the ClickHouse goldens (DESIGN.md §7 C18)",
-    "extraction (ExtrOcamlBasic only), OCaml driver, Go typedump; tokens come from the real lexer",
+    "extraction (ExtrOcamlBasic only), OCaml driver, Go typedump; tokens come from the real lexer (its model Lexer/LexerModel.v is tied to lexer.go by the lexer correspondence run here; "
+    "check (0) of the generator compares the lexer's tokens of every generated T with print_ty(tree))",
+    "state carried across types / statements inside one Parse call is outside the model (the model parses one type expression); covered by the script pass only",
 ]
 
 
@@ -22,33 +30,76 @@ def run(rep):
     found = False
     if not any(b["obligation"].startswith("build:") for b in broken):
         count = 6000 if rep.tier == "quick" else 120000
-        rc, out = verif.sh(["python3", os.path.join(verif.ROOT, "checks", "gen_type_cases.py"), str(rep.seed), str(count), "--run", "--max-report", "10"], timeout=3000)
+        dump = os.path.join(verif.BUILD, "c18_script_prefix_%s.hex" % os.getpid())
+        if os.path.exists(dump):
+            os.remove(dump)
+        res = {}
+
+        def gen():
+            res["rc"], res["out"] = verif.sh(["python3", os.path.join(verif.ROOT, "checks", "gen_type_cases.py"), str(rep.seed), str(count), "--run",
+                                              "--max-report", "10", "--extras", rep.tier, "--script-dump", dump], timeout=3000)
+        th = threading.Thread(target=gen)
+        th.start()
+        # meanwhile: the theorems are stated over the lexer's tokens of T ("written with any spacing"; string arguments are the
+        # lexer's STRING values): tie Lexer/LexerModel.v to the CURRENT lexer.go (a difference is a broken correspondence)
+        import lexcommon
+        lexcommon.lexer_premise(rep, broken, ())
+        th.join()
+        rc, out = res.get("rc", 1), res.get("out", "")
         lines = out.splitlines()
         spec = [l for l in lines if l.startswith("SPEC ")]
         model = [l for l in lines if l.startswith("MODEL")]
+        script = [l for l in lines if l.startswith("SCRIPT ")]
+
+        def type_of(l):
+            m = re.search(r" hex=([0-9a-f]+|-) ", l)
+            if m and m.group(1) != "-":
+                return m.group(1)
+            m = re.search(r"text=(b?'.*?'|b?\".*?\") ", l)
+            return (m.group(1) if m else l[:200]).encode().hex()
         for l in spec[:10]:
             found = True
-            m = re.search(r"text=(b?'.*?'|b?\".*?\") ", l)
-            txt = m.group(1) if m else l[:200]
-            rep.violation("input", "type shown by EXPLAIN is not the canonical spelling: " + l[:300], {"case": l[:3000], "type_text": txt},
-                          input_hex=txt.encode().hex())
-        dis = re.search(r"disagreements: tokens (\d+), model-vs-code (\d+), CAST-vs-:: (\d+), spec-vs-code on wf trees (\d+), classifier (\d+)", out)
+            h = type_of(l)
+            rep.violation("input", "type shown by EXPLAIN is not the canonical spelling: " + l[:400], {"case": l[:3000], "type_hex": h[:40000]},
+                          input_hex=h)
+        if script:
+            # a statement of the script shows another type than the same statement parsed alone (which equals the spec / the model)
+            prefix = open(dump).read().split() if os.path.exists(dump) else []
+            l = script[0]
+            found = True
+            blob = "\n".join(prefix)
+            rep.violation("input", "inside a script (one Parse call) a cast shows another type than alone: " + l[:500],
+                          {"case": l[:3000], "type_hex": type_of(l)[:40000], "others": [x[:600] for x in script[1:6]],
+                           "script_types_hex": prefix if len(blob) <= 4000000 else prefix[-2000:],
+                           "how": "typedump -script on script_types_hex (one hex type per line): the LAST line differs from typedump on that type alone"},
+                          input_hex=type_of(l))
+        if os.path.exists(dump):
+            os.remove(dump)
+        dis = re.search(r"disagreements: tokens (\d+), model-vs-code (\d+), CAST-vs-:: (\d+), spec-vs-code on wf trees (\d+), classifier (\d+), script-vs-single (\d+)", out)
         nums = [int(x) for x in dis.groups()] if dis else None
         if nums is None or "RESULT PASS" not in out:
-            if not spec or model or nums is None or nums[0] or nums[1] or nums[4]:
+            if nums is None or model or nums[1] or nums[4] or not (spec or script or nums[0]):
                 broken.append({"obligation": "correspondence:parseDataType/FormatDataType~TypeModel", "detail": ("\n".join(model[:3]) or out[-1500:])[:3000]})
+            if nums and nums[0]:
+                tk = [l for l in lines if l.startswith("TOKENS")]
+                broken.append({"obligation": "tokens:lexer.Tokenize(T)~print_ty(tree)", "detail": ("\n".join(tk[:3]) or out[-1500:])[:3000]})
             if nums and nums[2] and not spec:
                 broken.append({"obligation": "CAST-vs-::", "detail": out[-1500:]})
+            if nums and nums[5] and not script:
+                broken.append({"obligation": "script-vs-single", "detail": out[-1500:]})
         tc = re.search(r"tree cases (\d+): wf (\d+)", out)
+        sc = re.search(r"script pass: (\d+) cases = (\d+) statements", out)
         cov = next((l for l in lines if l.startswith("coverage:")), "")
-        samples = []
-        for l in lines:
-            pass
         rep.coverage.update({
-            "evaluations": 2 * count, "distinct_nontrivial": int(tc.group(2)) if tc else 0,
-            "rule": "random type trees to depth 5 over the property's constructor set with every parent/child pair covered, all argument kinds (strings with quotes, backslashes, control bytes, UTF-8, empty; "
-                    "Enum values incl. negative; numbers), six separator styles, plus token-level mutants; each in CAST(x AS T) and x::T; distinct_nontrivial = well-formed trees compared with the spec",
-            "samples": [cov[:400]] + [l[:200] for l in lines if l.startswith("tree cases") or l.startswith("mutants")],
+            "evaluations": 2 * (int(tc.group(1)) if tc else count) + (int(sc.group(2)) if sc else 0), "distinct_nontrivial": int(tc.group(2)) if tc else 0,
+            "rule": "random type trees to depth 5 over the property's constructor set with every parent/child pair covered, all argument kinds (strings with quotes, backslashes, control bytes, UTF-8, empty, "
+                    "values that are NOT valid UTF-8 spelled with \\xNN, random lengths; Enum values incl. negative; numbers), six separator styles, plus token-level mutants; systematic classes: "
+                    "bytes (43 invalid-UTF-8 values x 12 string positions), strlen (string lengths 0..70 and around 128/256/4096: prefix + special + tail for '' \\' \\\\ \\n \\xE9 and 2/3/4-byte characters; "
+                    "quick: one coordinate from a small set, thorough: the full 71 x 71 grid), wide (Tuple / named Tuple / Variant / Enum with 1600 (thorough: to 20000) arguments, nesting depth to 300 (1000)); "
+                    "each in CAST(x AS T) and x::T parsed alone, and once more all together as ONE script in a single Parse call (script pass, compared per statement); "
+                    "distinct_nontrivial = well-formed trees compared with the spec",
+            "samples": [cov[:500]] + [l[:400] for l in lines if l.startswith("extra classes") or l.startswith("script pass") or l.startswith("tree cases") or l.startswith("mutants")],
+            "script_pass": {"cases": int(sc.group(1)) if sc else 0, "statements_in_one_parse_call": int(sc.group(2)) if sc else 0, "differences": nums[5] if nums else None},
             "summary": [l for l in lines if l.startswith("disagreements") or l.startswith("RESULT")],
             "trusted_base": TRUSTED,
         })
@@ -57,5 +108,16 @@ def run(rep):
 
 
 def replay(rec):
+    import subprocess
     print(rec.get("case", ""))
+    td = os.path.join(verif.BUILD, "typedump")
+    if rec.get("script_types_hex") and os.path.exists(td):
+        inp = "\n".join(rec["script_types_hex"]) + "\n"
+        a = subprocess.run([td, "-script"], input=inp.encode(), stdout=subprocess.PIPE).stdout.decode().splitlines()
+        b = subprocess.run([td], input=(rec["script_types_hex"][-1] + "\n").encode(), stdout=subprocess.PIPE).stdout.decode().splitlines()
+        print("inside the script:", "\t".join(a[-1].split("\t")[1:3]) if a else "?")
+        print("alone            :", "\t".join(b[-1].split("\t")[1:3]) if b else "?")
+    elif rec.get("type_hex") and os.path.exists(td):
+        p = subprocess.run([td], input=(rec["type_hex"] + "\n").encode(), stdout=subprocess.PIPE)
+        print("\t".join(p.stdout.decode().split("\t")[:3]))
     return 0
